@@ -106,6 +106,8 @@ def relabel(rng, wf):
 def random_wf(rng, maxn=4, heavy=False):
     wf = _random_wf(rng, maxn, heavy)
     wf = relabel(rng, wf) if rng.random() < 0.3 else wf
+    if rng.random() < 0.5:
+        wf["sparse"] = True       # nodes without data demand omit the key altogether
     if rng.random() < 0.4:
         wf["header"] = {"time": rng.choice([True, False, "false"]), "generator": {"name": "harness"}}
     return wf
@@ -184,6 +186,18 @@ def random_cfg(rng, alg=None, family="roomy", nobs=None, maxn=4):
         # the ingest must be rejected with an error before anything is deposited
         c = random_cfg(rng, alg=alg, family="roomy", nobs=nobs or rng.choice([1, 2]), maxn=3)
         bad = rng.randrange(len(c["obs"]))
+        if len(c["obs"]) == 2 and len(c["machines"]) >= 2 and rng.random() < 0.5:
+            # the over-rate observation starts in the same step as a compliant one,
+            # is listed after it and does not outlive it
+            bad = 1
+            a, b = c["obs"]
+            b["est"] = a["est"]
+            b["dur"] = rng.randint(1, a["dur"])
+            a["demand"] = b["demand"] = a["ing"] = b["ing"] = 1
+            c["arrays"] = max(c["arrays"], 2)
+            c["maxIngest"] = max(c["maxIngest"], 2)
+            if c["alg"] == "batch":
+                c["split"] = []
         c["obs"][bad]["rate"] = c["hotRate"] + rng.randint(1, 2)
         vols = [o["rate"] * o["dur"] for o in c["obs"]]
         c["hotCap"] = (sum(vols) * 10) // 6 + 3
